@@ -88,7 +88,12 @@ static std::string rep_dump(const Repetition& r, double scaling) {
             break;
         default: break;
     }
-    return rep_text(v);
+    std::string txt = rep_text(v);
+    // a Regular repetition also shows its two vectors (v2 of a one-row lattice does not show in the offsets)
+    if (r.type == RepetitionType::Regular && txt != "-")
+        txt += " R " + hex_i64(grid(r.v1.x, scaling)) + " " + hex_i64(grid(r.v1.y, scaling)) + " " + hex_i64(grid(r.v2.x, scaling)) + " " +
+               hex_i64(grid(r.v2.y, scaling));
+    return txt;
 }
 // a polygon sampled by ellipse(centre, r, r, 0, 0, 0, 0, tolerance): n >= 5 vertices at the angles 2 pi i / n of a
 // circle with grid centre and grid radius >= 3 (smaller radii give the 4 grid points of a diamond, printed as such)
